@@ -493,7 +493,10 @@ class TextXVisitor(RRELVisitor):
             if rule.rule_name and cls.__name__ != rule.rule_name:
                 # Special case. Body of the rule is a single rule reference and
                 # the referenced rule is not match rule.
-                target_cls = metamodel[rule.rule_name]
+                # The referenced rule may live in another (imported) grammar:
+                # use the class the reference was resolved to, not a lookup
+                # by name from wherever the resolving started.
+                target_cls = rule._tx_class
                 _determine_rule_type(target_cls)
                 abstract = target_cls._tx_type != RULE_MATCH
             else:
